@@ -19,6 +19,8 @@ def sh(cmd, **kw):
 shutil.rmtree(bd, ignore_errors=True)
 sh("git -C /repo worktree remove --force %s" % wt)
 os.makedirs("/tmp/seedcheck", exist_ok=True)
+os.makedirs("/tmp/vptools", exist_ok=True)
+shutil.copy(os.path.join(os.path.dirname(os.path.abspath(__file__)), "build_tree.py"), "/tmp/vptools/build_tree.py")   # the copy handed to the seeding agents
 r = sh("git -C /repo worktree add -q --detach %s HEAD" % wt); assert r.returncode == 0, r.stderr
 log = {}
 def rundemo():
